@@ -33,7 +33,14 @@ def one(item):
         # pattern: an occurrence taken from the program (present), possibly perturbed (absent), length 1..4
         k0 = rng.randrange(0, len(ins)); L = rng.randrange(1, 5)
         pat_src = [str(i) for i in ins[k0:k0 + L]]
-        if rng.random() < 0.25: pat_src[-1] = "int 424242"
+        if item.get('words') and rng.random() < 0.7:
+            # a word over the program's small alphabet: usually occurs several times, the occurrences overlapping
+            k = rng.randrange(3)
+            if k == 0: pat_src = [rng.choice(gen.REP_ALPHABET)] * rng.randrange(1, 4)
+            elif k == 1:
+                a, b = rng.sample(gen.REP_ALPHABET, 2); pat_src = ([a, b] * rng.randrange(1, 3)) + [a]
+            else: pat_src = [rng.choice(gen.REP_ALPHABET) for _ in range(rng.randrange(1, 4))]
+        elif rng.random() < 0.25: pat_src[-1] = "int 424242"
         if any(s.endswith(':') for s in pat_src) and rng.random() < 0.5:
             pat_src = [s for s in pat_src if not s.endswith(':')] or ["int 1"]
         try:
@@ -107,6 +114,8 @@ def c20(cx):
     for i in range(0, gen.N_CALLFAM, 3):
         src, tags = gen.callfam(cx.seed, i)
         items.append({'name': f'callfam/{cx.seed}/{i}', 'src': src, 'seed': cx.seed, 'ncases': 6})
+    for i in range(30 if cx.quick() else 300):
+        items.append({'name': f'repetitive/{cx.seed}/{i}', 'src': gen.repetitive(cx.seed, i), 'seed': cx.seed, 'ncases': 8, 'words': True})
     results = engine.run_items_with(one, items)
     cases, diffs, known = 0, 0, 0
     for r in results:
